@@ -796,8 +796,12 @@ fn sockets_case(ctx: &mut Ctx, i: u64) {
                     Err(_) => return Err(("hang".into(), format!("call {} ({}; server {}) did not resolve within 20 s", n, kind, if *up { "up" } else { "down" }))),
                     Ok(r) => {
                         let ok = r.is_ok();
+                        let unavailable = matches!(&r, Err(s) if s.code() == tonic::Code::Unavailable);
                         last = Some(r.map(|_| ()).map_err(|s| (s.code(), s.message().to_string())));
-                        if ok == *up {
+                        // settled: served while up; UNAVAILABLE (or, wrongly, Ok) while down.  A
+                        // failure with another code while down is the call that found the old
+                        // connection dying under it: ask again
+                        if (*up && ok) || (!*up && (ok || unavailable)) {
                             break;
                         }
                     }
